@@ -54,6 +54,13 @@ def std_queries(tier, seed, depth2=True):
                     dq = worlds.apply_edit(cq, ('dup', j))
                     out.append((ri, dict(window=[ri, s, l], reverse=rev, offset=off, script=[['chimera', 'window', gap], ['dup', j]]),
                                 [round(p + off, 1) for p in dq]))
+            # transposition: the window that lies DOWNSTREAM on the reference (close enough to be a join candidate) comes FIRST in the
+            # molecule - the two parts are each placed correctly but are not collinear, so they must not be joined into one record
+            near = worlds.window_query(ref, min(s + l + 2, len(ref[2]) - 11), 10, rev)[0][2]
+            for gap in (5600.0, 30000.0):
+                first, second = (near, q) if not rev else (q, near)
+                tq = worlds.apply_edit(list(first), ('chimera', list(second), gap))
+                out.append((ri, dict(window=[ri, s, l], reverse=rev, offset=off, script=[['transposed-chimera', gap]]), [round(p + off, 1) for p in tq]))
             if depth2 and tier == 'thorough' and wi % 5 == 0:
                 for script, pos in worlds.scripts(q, 2, False, chim[:2]):
                     out.append((ri, dict(window=[ri, s, l], reverse=rev, offset=off, script=_js(script)), [round(p + off, 1) for p in pos]))
@@ -100,7 +107,26 @@ def std_worlds(tier, seed, per_world=4, depth2=True):
                 wrefs = [UNLABELLED_REF] + wrefs
             ws.append(dict(refs=wrefs, queries=queries, desc=[d for d, _ in grp], extra_column=(i // per_world) % 2 == 1))
     ws.append(far_world())
+    ws += transposition_worlds()
     return ws
+
+
+def transposition_worlds():
+    """two-part molecules on the repetitive lattice-1400 reference whose parts come in the order that is NOT collinear with the
+    reference (the part lying downstream on the reference leads the molecule), the two source windows adjacent: the second-pass
+    fragment then finds a placement within maxDifference of the first-pass alignment, and joining the two would give a record whose
+    label numbers run backwards (the defect repaired by fix d46c841 showed on exactly this shape)"""
+    ref = std_refs()[1]
+    out = []
+    for s, l, nl, gap in ((12, 20, 10, 30000.0), (12, 20, 10, 28000.0), (12, 20, 9, 30000.0), (20, 16, 10, 30000.0)):
+        qs = []
+        for j, rev in enumerate((False, True)):
+            q = worlds.window_query(ref, s, l, rev)[0][2]
+            near = worlds.window_query(ref, s + l, nl, rev)[0][2]
+            first, second = (near, q) if not rev else (q, near)
+            qs.append(worlds.as_map(QIDS[j + 1], worlds.apply_edit(list(first), ('chimera', list(second), gap))))
+        out.append(dict(refs=[ref], queries=qs, desc=['transposed two-part molecule (%d+%d labels, gap %s) %s' % (nl, l, gap, st) for st in '+-']))
+    return out
 
 
 def far_world():
@@ -479,6 +505,8 @@ def query_pool():
     chimeric (same reference/same strand at several gaps, other strand, other reference) and unalignable molecules"""
     refs = std_refs()
     pool = []
+    late = []       # transposed: the two parts in the order that is NOT collinear with the reference (each part alignable, the pair
+                    # not joinable); appended behind everything else so that the positions of the older entries do not move
 
     def win(ri, s, l, rev):
         return worlds.window_query(refs[ri], s, l, rev)[0][2]
@@ -493,6 +521,7 @@ def query_pool():
             pool.append(('chimera r%d same-strand gap %s %s' % (ri, gap, '-' if rev else '+'),
                          worlds.apply_edit(first, ('chimera', second, gap))))
         pool.append(('chimera r%d other-strand' % ri, worlds.apply_edit(a, ('chimera', win(ri, s2, l2, not rev), 5600.0))))
+        late.append(('transposed r%d %s' % (ri, '-' if rev else '+'), worlds.apply_edit(second, ('chimera', first, 5600.0))))
         pool.append(('chimera r%d other-reference' % ri, worlds.apply_edit(a, ('chimera', win((ri + 1) % 3, 15, 12, rev), 5600.0))))
     for ri, s, l, rev, i, d in ((0, 10, 24, False, 12, 28000.0), (1, 14, 22, True, 9, 4200.0), (2, 20, 26, False, 13, -4200.0),
                                 (0, 30, 24, True, 11, 60000.0)):
@@ -509,6 +538,7 @@ def query_pool():
     pool.append(('unalignable one-label', [100.0]))
     pool.append(('unalignable two-label', [100.0, 20000.0]))
     pool.append(('unalignable even-spacing', [float(i * 2150) for i in range(12)]))
+    pool += late
     return refs, pool
 
 
@@ -522,6 +552,7 @@ def query_sets(n, seed_tag, size=(3, 5)):
     triples = [i for i, (nm, _) in enumerate(pool) if nm.startswith('chimera3')]
     plain = [i for i, (nm, _) in enumerate(pool) if nm.startswith('plain')]
     unal = [i for i, (nm, _) in enumerate(pool) if nm.startswith('unalignable')]
+    transposed = [i for i, (nm, _) in enumerate(pool) if nm.startswith('transposed')]
     sets = []
     while len(sets) < n:
         k = rnd.randint(size[0], size[1])
@@ -530,6 +561,8 @@ def query_sets(n, seed_tag, size=(3, 5)):
             chosen.append(triples[len(sets) // 3 % len(triples)])
         if len(sets) % 4 != 3:
             chosen.append(unal[len(sets) % len(unal)])
+        if len(sets) % 5 == 2 and transposed and len(chosen) < k:
+            chosen.append(transposed[len(sets) // 5 % len(transposed)])
         while len(chosen) < k:
             c = rnd.choice(plain + special)
             if c not in chosen:
